@@ -228,6 +228,7 @@ def exec (conjv : K → K) (half : K) (st : St K) (cmd : List String) : Option (
     match indexHamiltonian st.L st.tbl with
     | none => some (st, ["o FUEL"])
     | some H => some ({ st with ham := H }, [s!"o poly {polyStr H}"])
+  | ["newlattice"] => some ({ st with L := Lat.empty, tbl := [], ham := [], syms := [], blkOf := [], blocks := [] }, ["o ok"])
   | "hshift" :: rest =>
     match readVal (K := K) rest with
     | some (c, _) =>
